@@ -53,6 +53,10 @@ import Manticore.Lemmas.SmbCodecsHonest
 import Manticore.Lemmas.SmbAlloc
 import Manticore.Lemmas.SmbCodecsAlloc
 import Manticore.Lemmas.C07AllocNet
+import Manticore.Lemmas.C07AllocKeys
+import Manticore.Lemmas.C07AllocNtlm
+import Manticore.Lemmas.C07AllocRest
+import Manticore.Lemmas.C07AllocFixed
 namespace Manticore.C07
 open Manticore Manticore.SmbIR Manticore.Gen.SmbCommands
 
@@ -386,6 +390,54 @@ theorem spnego_process_challenge_total (upper utf16 : Bytes → Bytes) (token us
     Manticore.C08.processChallengeToken upper utf16 token user domain ws lm nt ≠ .panic :=
   Manticore.C07T.processChallenge_no_panic upper utf16 token user domain ws lm nt
 
+/-! #### allocation (Model/C08Alloc.lean, Lemmas/C07AllocNtlm.lean) -/
+
+/-- **allocation, `ntlm.ParseTargetInfo`**: what the loop stores into its map — 8 + the value length per
+    executed `result[avId] = targetInfo[offset:offset+int(avLen)]`, on every path, both error returns
+    included (`parseTargetInfoAllocOf`) — is at most `2·len(ti)`; a returned map has at most
+    `len(ti)/4` entries (four bytes of framing each) and is no bigger than what was stored (a
+    repeated key overwrites) -/
+theorem ntlm_target_info_alloc_bound (ti : Bytes) :
+    Manticore.C08.parseTargetInfoAllocOf ti ≤ 2 * ti.length ∧
+    ∀ m, Manticore.C08.parseTargetInfo ti = .ok m →
+      Manticore.C08.avMapSize m ≤ Manticore.C08.parseTargetInfoAllocOf ti ∧ m.length * 4 ≤ ti.length :=
+  ⟨Manticore.C07A.Ntlm.parseTargetInfoAllocOf_le ti, fun m h => Manticore.C07A.Ntlm.parseTargetInfo_alloc ti m h⟩
+/-- **allocation, `ntlm.ParseChallengeMessage`** (no `make`: the two variable fields are slice
+    expressions behind the 64-bit offset+length guard): target name and target info each fit in the
+    input and in 16 bits, the three arrays have 8 bytes, `challengeSize c ≤ 2·len(d) + 48` (the two
+    fields may alias the same bytes) -/
+theorem ntlm_challenge_parse_alloc_bound (d : Bytes) (c : Manticore.C08.Challenge) (h : Manticore.C08.parseChallenge d = .ok c) :
+    c.targetName.length ≤ d.length ∧ c.targetName.length ≤ 65535 ∧
+    c.targetInfo.length ≤ d.length ∧ c.targetInfo.length ≤ 65535 ∧
+    c.serverChallenge.length = 8 ∧ c.reserved.length = 8 ∧ c.version.length = 8 ∧
+    Manticore.C08.challengeSize c ≤ 2 * d.length + 48 :=
+  Manticore.C07A.Ntlm.parseChallenge_alloc_bound d c h
+/-- the content copy of one `encoding/asn1` field (`parseField`: the announced length once "data
+    truncated" has been passed, 0 on every earlier return) never exceeds the input -/
+theorem asn1_field_alloc_bound (e : Option Nat) (utag : Nat) (comp : Bool) (b : Bytes) :
+    Manticore.C08.parseFieldAllocOf e utag comp b ≤ b.length :=
+  Manticore.C07A.Ntlm.parseFieldAllocOf_le e utag comp b
+/-- **allocation, `spnego.ParseNegTokenResp`**: the three variable fields and six bytes of framing fit in
+    the input; `negTokenRespSize r ≤ 8·len(d)` (one `int` per OID content byte) -/
+theorem spnego_neg_token_resp_alloc_bound (d : Bytes) (r : Manticore.C08.NegTokenResp)
+    (h : Manticore.C08.parseNegTokenResp d = .ok r) :
+    r.supportedMech.length + r.responseToken.length + r.mechListMIC.length + 6 ≤ d.length ∧
+    Manticore.C08.negTokenRespSize r ≤ 8 * d.length :=
+  Manticore.C07A.Ntlm.parseNegTokenResp_alloc_bound d r h
+/-- **allocation, `spnego.ExtractNTLMToken`**: the token is a proper piece of the input -/
+theorem spnego_extract_alloc_bound (d t : Bytes) (h : Manticore.C08.extractNTLMToken d = .ok t) :
+    0 < t.length ∧ t.length + 6 ≤ d.length :=
+  Manticore.C07A.Ntlm.extractNTLMToken_alloc_bound d t h
+/-- **allocation, `AuthContext.ProcessChallengeToken`**: the authenticate token built from a decoded
+    challenge is linear in the credentials and responses (coefficient 0 in the server's token) and
+    never exceeds 327811 bytes (the `len(field) > 0xFFFF` guards of the builder) -/
+theorem spnego_process_challenge_alloc_bound (upper utf16 : Bytes → Bytes) (token user domain ws lm nt out : Bytes)
+    (h : Manticore.C08.processChallengeToken upper utf16 token user domain ws lm nt = .ok out) :
+    out.length ≤ lm.length + nt.length + ((utf16 domain).length + domain.length) +
+        ((utf16 user).length + user.length) + ((utf16 (upper ws)).length + (upper ws).length) + 136 ∧
+    out.length ≤ 327811 :=
+  Manticore.C07A.Ntlm.processChallengeToken_alloc_bound upper utf16 token user domain ws lm nt out h
+
 /-! ### LLMNR packets (model of C09) -/
 
 /-- `llmnr.DecodeMessage` (header, questions, the three record sections) never panics -/
@@ -494,6 +546,36 @@ theorem utf16_decode_total (b : Bytes) : ∃ s, Manticore.C12.GPP.decodeUTF16LE 
 theorem utf16_decode_units (b : Bytes) (us : List UInt16) (h : Manticore.C12.GPP.unitsLE b = .ok us) :
     us.length = b.length / 2 := (Manticore.C12.GPP.unitsLE_length b us h).symm
 
+/-! #### allocation (Model/C12Alloc.lean, Lemmas/C07AllocRest.lean) -/
+
+/-- **allocation, `pkcs7.Unpad`**: a re-slice of its input, nothing is allocated -/
+theorem pkcs7_unpad_alloc_bound (buf m : Bytes) (h : Manticore.C12.PKCS7.unpad buf = .ok m) : m.length < buf.length :=
+  Manticore.C07A.Rest.pkcs7_unpad_alloc_bound buf m h
+/-- **allocation, `utf16.DecodeUTF16LE`**: `make([]uint16, len(b)/2)`, the rune slice of `utf16.Decode`
+    and the returned string (`utf16AllocOf`) are at most 9 bytes per code unit on every input; the
+    string is at most 3 bytes per code unit (attained: U+20AC) -/
+theorem utf16_decode_alloc_bound (b : Bytes) :
+    Manticore.C12.GPP.utf16AllocOf b ≤ 9 * (b.length / 2) ∧
+    ∀ s, Manticore.C12.GPP.decodeUTF16LE b = .ok s →
+      s.length ≤ Manticore.C12.GPP.utf16AllocOf b ∧ s.length ≤ 3 * (b.length / 2) :=
+  ⟨Manticore.C07A.Rest.utf16AllocOf_le b, fun s h => Manticore.C07A.Rest.decodeUTF16LE_alloc_bound b s h⟩
+/-- **allocation, `gppp.GPPPDecryptBytes`**: the IV, `plaintext := make([]byte, len(ciphertext))` and the
+    UTF-16 decoding behind `Unpad` (`gppBytesAllocOf`) are at most `6·len(c) + 16` on every input and for
+    every block function in place of AES; the result is no bigger -/
+theorem gpp_decrypt_bytes_alloc_bound (D : Bytes → Bytes) (c : Bytes) :
+    Manticore.C12.GPP.gppBytesAllocOf D c ≤ 6 * c.length + 16 ∧
+    ∀ s, Manticore.C12.GPP.decryptBytes D c = .ok s →
+      s.length ≤ Manticore.C12.GPP.gppBytesAllocOf D c ∧ s.length ≤ 3 * (c.length / 2) :=
+  ⟨Manticore.C07A.Rest.gppBytesAllocOf_le D c, fun s h => Manticore.C07A.Rest.decryptBytes_alloc_bound D c s h⟩
+/-- **allocation, `gppp.GPPPDecryptBase64`**: re-padding, the base64 buffer (made before a character is
+    looked at: `len/4·3`) and `GPPPDecryptBytes` behind a successful decode (`gppAllocOf`) are at most
+    `7·len(s) + 32` on every input; the result is no bigger, and `8·len(result) ≤ 9·len(s) + 18` -/
+theorem gpp_decrypt_base64_alloc_bound (D : Bytes → Bytes) (s : Bytes) :
+    Manticore.C12.GPP.gppAllocOf D s ≤ 7 * s.length + 32 ∧
+    ∀ r, Manticore.C12.GPP.decryptBase64 D s = .ok r →
+      r.length ≤ Manticore.C12.GPP.gppAllocOf D s ∧ 8 * r.length ≤ 9 * s.length + 18 :=
+  ⟨Manticore.C07A.Rest.gppAllocOf_le D s, fun r h => Manticore.C07A.Rest.decryptBase64_alloc_bound D s r h⟩
+
 /-! ### UUID and GUID readers (models of C13) -/
 
 /-- `(*UUID).Unmarshal` never panics -/
@@ -524,6 +606,25 @@ theorem guid_parse_total (F : Manticore.C13.Fmt) (s : Bytes) : Manticore.C13.par
 /-- `guid.FromString` never panics -/
 theorem guid_from_string_total (s : Bytes) : Manticore.C13.fromString s ≠ .panic :=
   Manticore.C13.fromString_never_panics s
+
+/-- **allocation, UUID / GUID readers**: every result is a structure of fixed-width fields whatever the
+    length of the input (31, 30, 46, 23, 40 bytes: 8 per integer field, one per array byte) -/
+theorem uuid_guid_fixed_alloc_bound :
+    (∀ m u, Manticore.C13.unmarshal m = .ok u → Manticore.C07A.Fixed.uuidSize u = 31) ∧
+    (∀ s u, Manticore.C13.uuidFromString s = .ok u → Manticore.C07A.Fixed.uuidSize u = 31) ∧
+    (∀ m v, Manticore.C13.v1Unmarshal m = .ok v → Manticore.C07A.Fixed.v1Size v = 30) ∧
+    (∀ m v, Manticore.C13.v1FromBytes m = .ok v → Manticore.C07A.Fixed.v1Size v = 30) ∧
+    (∀ s v, Manticore.C13.v1FromString s = .ok v → Manticore.C07A.Fixed.v1Size v = 30) ∧
+    (∀ m v, Manticore.C13.v2Unmarshal m = .ok v → Manticore.C07A.Fixed.v2Size v = 46) ∧
+    (∀ m v, Manticore.C13.v2FromBytes m = .ok v → Manticore.C07A.Fixed.v2Size v = 46) ∧
+    (∀ s v, Manticore.C13.v2FromString s = .ok v → Manticore.C07A.Fixed.v2Size v = 46) ∧
+    (∀ m v, Manticore.C13.v8Unmarshal m = .ok v → Manticore.C07A.Fixed.v8Size v = 23) ∧
+    (∀ m v, Manticore.C13.v8FromBytes m = .ok v → Manticore.C07A.Fixed.v8Size v = 23) ∧
+    (∀ s v, Manticore.C13.v8FromString s = .ok v → Manticore.C07A.Fixed.v8Size v = 23) ∧
+    (∀ b g, Manticore.C13.fromRawBytes b = .ok g → Manticore.C07A.Fixed.guidSize g = 40) ∧
+    (∀ F s g, Manticore.C13.parse F s = .ok g → Manticore.C07A.Fixed.guidSize g = 40) ∧
+    (∀ s g, Manticore.C13.fromString s = .ok g → Manticore.C07A.Fixed.guidSize g = 40) :=
+  Manticore.C07A.Fixed.c13_fixed_alloc_bound
 
 /-! ### key-credential blobs (models of C14 and C15) -/
 
@@ -561,11 +662,93 @@ theorem key_credential_time_total (raw : Bytes) : ∃ t, Manticore.C15.convertFr
 theorem key_credential_device_id_total (d : Bytes) : ∃ g, Manticore.C14.Guid.fromRawBytes d = .ok g :=
   Manticore.C14.guid_fromRawBytes_ok d
 
+/-! #### allocation (Model/C14Alloc.lean, Lemmas/C07AllocKeys.lean) -/
+
+/-- **allocation, `KeyCredential.FromBytes`**: what the entry loop allocates — the identifier text, the
+    legacy-usage string, the two copies inside the custom key information; every other field is a view
+    of the blob or a number — summed over all entries reached, replaced results and the failing entry
+    included (`kcAllocOf`), is at most `2·len(b)`; a decoded credential's allocated part is no bigger,
+    and its whole size grows by at most `3·len(b)` -/
+theorem key_credential_parse_alloc_bound (k : Manticore.C14.KeyCredential) (b : Bytes) :
+    Manticore.C14.kcAllocOf k b ≤ 2 * b.length ∧
+    ∀ k', Manticore.C14.KeyCredential.fromBytes k b = .ok k' →
+      k'.owned ≤ k.owned + Manticore.C14.kcAllocOf k b ∧ k'.size + 8 ≤ k.size + 3 * b.length :=
+  Manticore.C07A.Keys.keyCredential_fromBytes_alloc_bound k b
+/-- the same from a fresh credential: `size ≤ 3·len(b) + 160` -/
+theorem key_credential_parse_fresh_alloc_bound (b : Bytes) (k' : Manticore.C14.KeyCredential)
+    (h : Manticore.C14.KeyCredential.fromBytes {} b = .ok k') :
+    k'.size ≤ 3 * b.length + 160 ∧ k'.owned ≤ Manticore.C14.kcAllocOf {} b ∧ Manticore.C14.kcAllocOf {} b ≤ 2 * b.length :=
+  Manticore.C07A.Keys.keyCredential_fromBytes_alloc_bound_zero b k' h
+/-- **allocation, `RSAKeyMaterial.FromBytes`** (no `make`: modulus and primes are slice views behind the
+    64-bit sum check; `rsaAllocOf` = the bytes they span, what a copying variant would cost): at most
+    `len(v)` on every input; a parsed value's three fields are exactly that, its size at most `2·len(v)` -/
+theorem rsa_key_material_parse_alloc_bound (rk r : Manticore.C14.RSAKeyMaterial) (v e : Bytes) (flag : Bool)
+    (h : Manticore.C14.RSAKeyMaterial.fromBytes rk v e = .ok (r, flag)) :
+    Manticore.C14.rsaAllocOf v ≤ v.length ∧
+    (flag = false → r.modulus.length + r.prime1.length + r.prime2.length = Manticore.C14.rsaAllocOf v ∧
+      r.size ≤ 2 * v.length) ∧
+    (flag = true → Manticore.C14.rsaAllocOf v = 0 ∧ r.size ≤ rk.size + v.length) :=
+  Manticore.C07A.Keys.rsa_fromBytes_alloc_bound rk r v e flag h
+/-- **allocation, `CustomKeyInformation.FromBytes`**: `Reserved = make([]byte, 10)` and
+    `EncodedExtendedCKI = make([]byte, RawBytesSize-19)` (`ckiAllocOf`) are at most `len(b)` on every
+    input, and exactly what a fresh receiver owns afterwards -/
+theorem custom_key_information_alloc_bound (c : Manticore.C14.CKI) (b : Bytes) :
+    Manticore.C14.ckiAllocOf b ≤ b.length ∧
+    (c.fromBytes b).1.owned ≤ c.owned + Manticore.C14.ckiAllocOf b ∧
+    (c.owned = 0 → (c.fromBytes b).1.owned = Manticore.C14.ckiAllocOf b) ∧
+    (c.fromBytes b).1.size ≤ c.size + 2 * b.length :=
+  Manticore.C07A.Keys.cki_fromBytes_alloc_bound c b
+/-- **allocation, `DNWithBinary.Parse`**: the announced size is only compared, never used as a length;
+    `hex.DecodeString` makes `len(hex)/2` bytes and `string(parts[3])` copies the DN behind the
+    comparison (`dnAllocOf`): at most `len(raw)` on every input, and exactly the size of a parsed value -/
+theorem dn_with_binary_parse_alloc_bound (raw : Bytes) :
+    Manticore.C14.dnAllocOf raw ≤ raw.length ∧
+    ∀ bin dn, Manticore.C14.dnParse raw = .ok (bin, dn) →
+      Manticore.C14.dnSize (bin, dn) = Manticore.C14.dnAllocOf raw ∧ Manticore.C14.dnSize (bin, dn) ≤ raw.length :=
+  Manticore.C07A.Keys.dnParse_alloc_bound raw
+/-- the clause is not vacuous: allocating by the announced size in front of the comparison costs
+    2 000 000 000 bytes for these 17 -/
+example : Manticore.C14.dnAllocEager (asciiBytes "B:4000000000:00:x") = 2000000000 := by decide
+/-- **allocation, `ConvertToBinaryIdentifier`**: the hex / base64 output buffer is no longer than the text -/
+theorem key_credential_identifier_alloc_bound (s : Bytes) (v : UInt32) :
+    Manticore.C14.toBinaryIdAllocOf s v ≤ s.length ∧
+    ∀ b, Manticore.C14.toBinaryId s v = some b → b.length ≤ Manticore.C14.toBinaryIdAllocOf s v ∧ b.length ≤ s.length :=
+  Manticore.C07A.Keys.toBinaryId_alloc_bound s v
+/-- fixed-size results of the key-credential readers: version (at most 20), GUID (40), binary time (24) -/
+theorem key_credential_fixed_alloc_bound :
+    (∀ b, Manticore.C14.versionSize (Manticore.C14.versionFromBytes b) ≤ 20) ∧
+    (∀ d g, Manticore.C14.Guid.fromRawBytes d = .ok g → g.size = 40) ∧
+    (∀ raw t, Manticore.C15.convertFromBinaryTime raw = .ok t → Manticore.C14.kcTimeSize t = 24) :=
+  ⟨fun b => (Manticore.C07A.Keys.versionFromBytes_alloc_bound b).1,
+   fun d g h => Manticore.C07A.Keys.guid_fromRawBytes_alloc_bound d g h,
+   fun raw t h => (Manticore.C07A.Keys.convertFromBinaryTime_alloc_bound raw t h).1⟩
+
 /-! ### SIDs (model of C16) -/
 
 /-- binary SIDs (re-exported from C16): total on every byte string -/
 theorem sid_total (b : Bytes) : ∃ s, Manticore.C16.parseSID b = .ok s := Manticore.C16.sid_total b
 
+
+/-- **allocation, `ParseSIDFromBytes`**: the slice slots, the `Sprintf` texts and the joined string
+    (`sidAllocOf`; nothing in front of the `len < 8+4·count` check) are at most `10·len(b)` on every
+    input; the text is at most `3·len(b) + 2` characters -/
+theorem sid_alloc_bound (b : Bytes) :
+    Manticore.C16.sidAllocOf b ≤ 10 * b.length ∧
+    ∀ s, Manticore.C16.parseSID b = .ok s → s.length ≤ Manticore.C16.sidAllocOf b ∧ s.length ≤ 3 * b.length + 2 :=
+  ⟨Manticore.C07A.Rest.sidAllocOf_le b, fun s h => Manticore.C07A.Rest.parseSID_alloc_bound b s h⟩
+/-- **allocation, `GetDomainFromDistinguishedName`**: the result is no longer than the input; the
+    strings built on the way (`domain += … + "."` once per `DC=` part, `dnAllocOf`) add up to at most
+    `(len+1)·(len+16)` — quadratic, and really so (16 copies of `DC=,` cost 136 bytes of strings) -/
+theorem dn_domain_alloc_bound (dn : Bytes) :
+    (Manticore.C16.domainOfDN dn).length ≤ dn.length ∧
+    Manticore.C16.dnAllocOf dn ≤ (dn.length + 1) * (dn.length + 16) :=
+  ⟨Manticore.C07A.Rest.domainOfDN_alloc_bound dn, Manticore.C07A.Rest.dnAllocOf_le dn⟩
+/-- **allocation, LDAP time parsers and the binary time**: one integer / one time value -/
+theorem ldap_time_fixed_alloc_bound :
+    (∀ s, Manticore.C07A.Fixed.int64Size (Manticore.C15.ldapToUnix s) = 8) ∧
+    (∀ s, Manticore.C07A.Fixed.int64Size (Manticore.C15.ldapDurationToSeconds s) = 8) ∧
+    (∀ raw t, Manticore.C15.convertFromBinaryTime raw = .ok t → Manticore.C07A.Fixed.kcTimeSize t = 24) :=
+  Manticore.C07A.Fixed.c15_fixed_alloc_bound
 
 /-! ### addresses, port ranges, LM:NT credentials (models of C20) -/
 
@@ -577,6 +760,16 @@ theorem ipv6_parse_total (s : Bytes) : ∃ r, Manticore.C20.parseIPv6 s = .ok r 
 theorem port_range_parse_total (s : Bytes) : Manticore.C20.parsePortRange s ≠ .panic := Manticore.C20.port_parse_total s
 /-- `credentials.ParseLMNTHashes` never panics -/
 theorem lmnt_parse_total (s : Bytes) : Manticore.C20.parseLMNT s ≠ .panic := Manticore.C20.lmnt_total s
+
+/-- **allocation, address / port-range / LM:NT parsers**: fixed-size results (an IPv4 at most 40, an
+    IPv6 at most 64, a port range two integers — the ports in between are never materialised —, two
+    hashes of 0 or 32 characters) -/
+theorem address_parsers_fixed_alloc_bound :
+    (∀ s r, Manticore.C20.parseIPv4 s = .ok r → Manticore.C07A.Fixed.ipv4Size r ≤ 40) ∧
+    (∀ s r, Manticore.C20.parseIPv6 s = .ok r → Manticore.C07A.Fixed.ipv6Size r ≤ 64) ∧
+    (∀ s r, Manticore.C20.parsePortRange s = .ok r → Manticore.C07A.Fixed.portRangeSize r = 16) ∧
+    (∀ s r, Manticore.C20.parseLMNT s = .ok r → Manticore.C07A.Fixed.lmntSize r ≤ 64) :=
+  Manticore.C07A.Fixed.c20_fixed_alloc_bound
 
 /-! ### non-vacuity: the former crash inputs are now values or errors of the models -/
 
